@@ -25,6 +25,8 @@ Streams
              allowance while the client retransmits; also end-to-end (two stacks)
   repeat   : the same peer sends the same invoke ID + octets again AFTER the transaction
              completed: a new request, indicated again, answered with the CURRENT answer
+  route-aware: settings.route_aware = True, real NSAP under the access point, 2:5 behind
+             routers 11 and 12 = two peers, colliding invoke IDs, both directions
   nextid   : get_next_invoke_id alone for every starting cursor 0..255 against
              random / adversarial occupancies
   corpus   : corpus/C11/*.json (pre-fix witnesses) first
@@ -955,7 +957,107 @@ def replay_events(ctx, label, reset, events):
     return L
 
 
+def route_aware_probe(ctx):
+    """settings.route_aware = True (restored afterwards): the real SMAP + ASAP under a REAL
+    NetworkServiceAccessPoint fed hand-encoded routed NPDUs.  The same remote station address
+    (2:5) behind two different routers (11, 12) is TWO peers: the peer key of every C11 clause
+    includes the route.  Colliding invoke IDs, both directions:
+      serving: the same request ID from 2:5@11 and 2:5@12 -> two indications, two transactions,
+               each answer leaves through the router its request came through;
+      client : two outstanding requests with the same ID to 2:5@11 and 2:5@12 -> each reply is
+               applied to the transaction of the router it came through."""
+    from bacpypes.settings import settings
+    import types
+    old = settings.route_aware
+    settings.route_aware = True
+    try:
+        vt = T._vt.VT.install(T.START)
+        vt.reset(T.START)
+        T.install_raw_services()
+        from bacpypes.comm import bind, Server, ApplicationServiceElement
+        from bacpypes.pdu import Address, PDU, RemoteStation
+        from bacpypes import appservice as AS
+        from bacpypes.netservice import NetworkServiceAccessPoint, NetworkServiceElement
+        from bacpypes.app import DeviceInfoCache
+        from bacpypes.apdu import ComplexAckPDU, ConfirmedRequestPDU
+        for inv in (7, 0, 255):
+            for order in ((11, 12), (12, 11)):
+                case = {"probe": "route-aware", "invoke": inv, "routers": list(order)}
+                dev = types.SimpleNamespace(numberOfApduRetries=3, apduTimeout=3000, segmentationSupported='segmentedBoth',
+                                            apduSegmentTimeout=1500, maxSegmentsAccepted=16, maxApduLengthAccepted=1024)
+                inds, confs, wire = [], [], []
+
+                class App(ApplicationServiceElement):
+                    def indication(self, apdu):
+                        inds.append(apdu)
+
+                    def confirmation(self, apdu):
+                        confs.append(apdu)
+
+                class Link(Server):
+                    def indication(self, pdu):
+                        wire.append((str(pdu.pduDestination), bytes(pdu.pduData)))
+                app, asap, smap, nsap = App(), AS.ApplicationServiceAccessPoint(), AS.StateMachineAccessPoint(dev), NetworkServiceAccessPoint()
+                smap.deviceInfoCache = DeviceInfoCache()
+                nse = NetworkServiceElement()
+                bind(nse, nsap)
+                bind(app, asap, smap, nsap)
+                nsap.bind(Link(), address=Address(1))
+                adapter = nsap.adapters[None]
+
+                def routed(router, apdu, ctl=0x0C):
+                    return PDU(bytes([0x01, ctl, 0, 2, 1, 5]) + apdu, source=Address(router), destination=Address(1))
+                # ---- serving side
+                for r in order:
+                    adapter.confirmation(routed(r, bytes([0x00, 0x05, inv, 200, r])))
+                vt.run(until=vt.now + 0.05)
+                got = sorted((str(a.pduSource), bytes(a.pduData)[0]) for a in inds)
+                want = sorted(("2:5@%d" % r, r) for r in order)
+                if got != want or len(smap.serverTransactions) != 2:
+                    ctx.fail("peers-independent-routes", case,
+                             "route_aware: the same request ID %d from 2:5 via router %d and via router %d (two devices): "
+                             "indications %r, %d server transaction(s)" % (inv, order[0], order[1], got, len(smap.serverTransactions)))
+                for a in list(inds):
+                    x = ComplexAckPDU(200, inv)
+                    x.pduDestination = a.pduSource
+                    x.put_data(b"ans" + bytes(a.pduData))
+                    app.response(x)
+                vt.run(until=vt.now + 0.05)
+                answers = sorted((d, w[-1]) for d, w in wire if w[-4:-1] == b"ans")
+                if len(inds) == 2 and answers != sorted((str(r), r) for r in order):
+                    ctx.fail("answer-route", case, "route_aware: the answers to 2:5@11 / 2:5@12 left as (router, content) %r" % (answers,))
+                # ---- client side
+                del wire[:]
+                for r in order:
+                    d = RemoteStation(2, bytes([5]))
+                    d.addrRoute = Address(r)
+                    q = ConfirmedRequestPDU(200)
+                    q.pduDestination = d
+                    q.apduInvokeID = inv
+                    q.put_data(bytes([r]))
+                    try:
+                        app.request(q)
+                    except Exception as e:
+                        ctx.fail("peers-independent-routes", case, "route_aware: the request with ID %d to 2:5@%d was refused (%s: %s) "
+                                 "although the live one is to another device (2:5 behind the other router)" % (inv, r, type(e).__name__, e))
+                vt.run(until=vt.now + 0.05)
+                # replies arrive in the OPPOSITE order of the requests
+                for r in reversed(order):
+                    adapter.confirmation(routed(r, bytes([0x30, inv, 200, 0xB0 + r]), ctl=0x08))
+                vt.run(until=vt.now + 0.05)
+                gotc = sorted((str(a.pduSource), bytes(a.pduData)[0] if a.pduData else None) for a in confs)
+                wantc = sorted(("2:5@%d" % r, 0xB0 + r) for r in order)
+                if gotc != wantc or smap.clientTransactions:
+                    ctx.fail("demux-routes", case, "route_aware: two outstanding requests with ID %d to 2:5@%d and 2:5@%d; the replies were "
+                             "confirmed as (peer, content) %r, %d transaction(s) left" % (inv, order[0], order[1], gotc, len(smap.clientTransactions)))
+                ctx.count("route-aware-probe", (inv, order))
+                vt.reset(T.START)
+    finally:
+        settings.route_aware = old
+
+
 def run(ctx):
+    route_aware_probe(ctx)
     for name, c in corpus_cases():
         L = replay_events(ctx, "corpus/" + name, c["reset"], c["events"])
         T.compare(ctx, "corpus", [L])
@@ -1010,6 +1112,9 @@ def replay(ctx, payload):
     if isinstance(case, dict) and "script_scenario" in case:
         from . import c04_impl
         return c04_impl.replay_impl(ctx, case)
+    if isinstance(case, dict) and case.get("probe") == "route-aware":
+        route_aware_probe(ctx)
+        return
     if isinstance(case, dict) and case.get("e2e") == "late":
         e2e_late_shard(ctx, [case])
         return
